@@ -86,6 +86,15 @@ func main() {
 	if *prop == "all" {
 		os.Exit(runAll(*repo))
 	}
+	if *prop == "probe-swallow" {
+		c, err := Load(*repo, nil, "")
+		if err != nil {
+			fmt.Fprintln(os.Stderr, err)
+			os.Exit(2)
+		}
+		probeSwallow(c)
+		os.Exit(0)
+	}
 	pd := props[*prop]
 	if pd == nil {
 		fmt.Fprintf(os.Stderr, "unknown property %q\n", *prop)
